@@ -199,6 +199,8 @@ impl Entities {
         // Use one atomic subtract to grab a range of new IDs. The range might be
         // entirely nonnegative, meaning all IDs come from the freelist, or entirely
         // negative, meaning they are all new IDs to allocate, or a mix of both.
+        #[cfg(hecs_verif)]
+        crate::verif::yield_point(10);
         let range_end = self
             .free_cursor
             .fetch_sub(count as isize, Ordering::Relaxed);
@@ -240,6 +242,8 @@ impl Entities {
     ///
     /// Equivalent to `self.reserve_entities(1).next().unwrap()`, but more efficient.
     pub fn reserve_entity(&self) -> Entity {
+        #[cfg(hecs_verif)]
+        crate::verif::yield_point(11);
         let n = self.free_cursor.fetch_sub(1, Ordering::Relaxed);
         if n > 0 {
             // Allocate from the freelist.
@@ -405,6 +409,8 @@ impl Entities {
     }
 
     pub fn contains(&self, entity: Entity) -> bool {
+        #[cfg(hecs_verif)]
+        crate::verif::yield_point(12);
         match self.meta.get(entity.id as usize) {
             Some(meta) => {
                 meta.generation == entity.generation
@@ -443,6 +449,8 @@ impl Entities {
 
     /// Returns `Ok(Location { archetype: 0, index: undefined })` for pending entities
     pub fn get(&self, entity: Entity) -> Result<Location, NoSuchEntity> {
+        #[cfg(hecs_verif)]
+        crate::verif::yield_point(13);
         if self.meta.len() <= entity.id as usize {
             // Check if this could have been obtained from `reserve_entity`
             let free = self.free_cursor.load(Ordering::Relaxed);
@@ -541,6 +549,21 @@ impl Entities {
     #[inline]
     pub fn len(&self) -> u32 {
         self.len
+    }
+
+    /// Snapshot of the allocator's bookkeeping, for verification harnesses
+    #[cfg(hecs_verif)]
+    pub fn verif_state(&mut self) -> crate::verif::EntitiesState {
+        crate::verif::EntitiesState {
+            meta: self
+                .meta
+                .iter()
+                .map(|m| (m.generation.get(), m.location.archetype, m.location.index))
+                .collect(),
+            pending: self.pending.clone(),
+            free_cursor: *self.free_cursor.get_mut(),
+            len: self.len,
+        }
     }
 }
 
